@@ -1100,3 +1100,71 @@ def route_echo(tier, rng, fam='C16'):
             b.step('inj', dir='c2s', env=e)
             out.append(b.q().done())
     return out
+
+
+# ------------------------------------------------------------- gate sweep -----
+
+SWEEP_GATES = ['mux.call.window', 'mux.await.window', 'cs.recv.window', 'cs.send.window',
+               'srv.writer.window', 'srv.forward.window', 'srv.stream.exit', 'cs.teardown.window']
+
+
+def _sweep_bases():
+    H = 3600 * 1000
+    return {
+        'unary': [('ucall', dict(c=1, pay='q1', hp=[ret(pay='p1')]))],
+        'echo': [('sopen', dict(c=1, kind='bidi', hp=[dict(o='echo')])), ('send', dict(c=1, pay='a')), ('recv', dict(c=1)),
+                 ('send', dict(c=1, pay='b')), ('recv', dict(c=1)), ('close', dict(c=1)), ('recv', dict(c=1))],
+        'herr': [('sopen', dict(c=1, kind='bidi', hp=[dict(o='recv'), ret(code=5, msg='no')])), ('send', dict(c=1, pay='a')),
+                 ('send', dict(c=1, pay='b')), ('close', dict(c=1)), ('recv', dict(c=1, n=2))],
+        'cancel': [('sopen', dict(c=1, kind='bidi', hp=[dict(o='recv'), dict(o='send', pay='u0'), dict(o='ctxwait'), ret(code=1, msg='gone')])),
+                   ('send', dict(c=1, pay='a')), ('recv', dict(c=1)), ('cancel', dict(c=1)), ('recv', dict(c=1))],
+        'failsend': [('sopen', dict(c=1, kind='bidi', hp=[dict(o='ctxwait'), ret(code=1, msg='gone')])), ('fault', dict(what='cwrite1')),
+                     ('send', dict(c=1, pay='x')), ('recv', dict(c=1))],
+        'ss': [('sopen', dict(c=1, kind='ss', hp=[dict(o='recv')] + [dict(o='send', pay='s%d' % i) for i in range(3)] + [ret()])),
+               ('send', dict(c=1, pay='q')), ('close', dict(c=1)), ('recv', dict(c=1, n=4))],
+        'cs': [('sopen', dict(c=1, kind='cs', hp=[dict(o='drain'), dict(o='send', pay='sum'), ret()])), ('send', dict(c=1, pay='a')),
+               ('send', dict(c=1, pay='b')), ('close', dict(c=1)), ('recv', dict(c=1, n=2))],
+        'deadline': [('sopen', dict(c=1, kind='bidi', to=20, hp=[dict(o='ctxwait'), ret(code=4, msg='dl')])), ('adv', dict(ms=21)), ('recv', dict(c=1))],
+    }
+
+
+def gate_sweep(tier, rng, fam, sample=None, only=None):
+    """systematic schedules: every base conversation x every instrumented window x every (arm, release)
+    position - the first goroutine to reach the window after step i is held there until after step j while
+    everything else runs to quiescence; at the end nothing is pending, registered or running"""
+    out = []
+    for bname, steps in _sweep_bases().items():
+        if only and bname not in only:
+            continue
+        for gate in SWEEP_GATES:
+            if gate == 'cs.teardown.window' and bname != 'failsend':
+                continue      # elsewhere its first visitor holds the stream's state lock (a mutex: not a durable block)
+            n = len(steps)
+            for i in range(0, n):
+                for j in range(i, n):
+                    b = B(fam, 'sweep %s: %s held from step %d until after step %d' % (bname, gate, i, j), ser=bool((i + j) % 2))
+                    for k, (op, kw) in enumerate(steps):
+                        if k == i:
+                            b.step('arm', gate=gate, n=1)
+                        b.step(op, **kw)
+                        b.q()
+                        if k == j:
+                            b.step('rel', gate=gate)
+                            b.q()
+                    b.step('ucall', c=9, pay='probe', hp=[ret(pay='fine')])
+                    out.append(b.q().done())
+    if sample and len(out) > sample:
+        out = rng.sample(out, sample)
+    return out
+
+
+def sweep_c14(tier, rng, fam='C14'):
+    return gate_sweep(tier, rng, fam, sample=160 if tier == 'quick' else None)
+
+
+def sweep_c11(tier, rng, fam='C11'):
+    return gate_sweep(tier, rng, fam, sample=120 if tier == 'quick' else None)
+
+
+def sweep_c07(tier, rng, fam='C07'):
+    return gate_sweep(tier, rng, fam, sample=100 if tier == 'quick' else None, only=('cancel', 'deadline', 'failsend'))
